@@ -1085,6 +1085,14 @@ pub fn run_c14(ctx: &mut Ctx) {
                 if rng.chance(1, 6) {
                     m.backends.push(Backend::new("json").with_epilogue(format!("JSON_MARKER_{i}")));
                 }
+                if rng.chance(1, 4) && !m.extern_values.is_empty() {
+                    // two views of one global: another extern value at an address already used
+                    let ev = m.extern_values[rng.below(m.extern_values.len())].clone();
+                    let mut twin = ev.clone();
+                    twin.name = Ident(format!("{}_view{i}", ev.name));
+                    twin.type_ = Type::ident("u8").const_pointer();
+                    m.extern_values.push(twin);
+                }
                 if rng.chance(1, 4) {
                     // sections that end in a line comment, without a final newline: the next
                     // section (or the first generated item) must not end up inside the comment
@@ -1147,6 +1155,53 @@ pub fn run_c14(ctx: &mut Ctx) {
         for (sig, detail) in r.bad {
             if seen.insert(sig.clone()) {
                 ctx.violation(&sig, &detail, r.case.clone());
+            }
+        }
+    }
+    // the input directory spelt relative to the working directory, in several ways, with a
+    // sub-directory chain that repeats its name: one file per module at the same relative path
+    // whatever the spelling (child processes: the working directory is per process)
+    {
+        let exe = std::env::current_exe().unwrap();
+        let spellings: &[(&str, &str)] = &[("types", "types"), ("./types", "types"), ("types/", "types"), ("nest/types", "nest/types"), ("./nest/./types", "nest/types"), ("nest//types", "nest/types")];
+        let tree: Vec<(&str, &str)> = vec![
+            ("top.pyxis", "pub type Top { pub a: u32, }"),
+            ("x.pyxis", "pub type X0 { pub a: u32, }"),
+            ("types/x.pyxis", "pub type X1 { pub a: u32, }"),
+            ("types/types/x.pyxis", "pub type X2 { pub a: u32, }"),
+            ("nest/types/deep.pyxis", "pub type Deep { pub a: u32, }"),
+        ];
+        let mut want: Vec<String> = tree.iter().map(|(rel, _)| format!("{}.rs", rel.trim_end_matches(".pyxis"))).collect();
+        want.sort();
+        for (spelt, real) in spellings {
+            ctx.eval();
+            let scratch = crate::drive::Scratch::new("rel");
+            let files: Vec<(String, String)> = tree.iter().map(|(rel, t)| (format!("{real}/{rel}"), t.to_string())).collect();
+            crate::drive::write_tree(&scratch.path, &files);
+            std::fs::create_dir_all(scratch.path.join("out")).unwrap();
+            let mut cmd = std::process::Command::new(&exe);
+            cmd.current_dir(&scratch.path).arg("child-build").arg(spelt).arg("out").arg("8");
+            let r = crate::probe::run_tool(&mut cmd, std::time::Duration::from_secs(120));
+            let case = json!({"cwd_relative_in_dir": spelt, "tree_below_it": tree.iter().map(|(a, b)| json!([a, b])).collect::<Vec<_>>()});
+            if r.timed_out || !r.stdout.contains("RESULT") {
+                eprintln!("relative-directory build without result: {}", crate::verdict::one_line(&r.stderr, 200));
+                ctx.count("relative_directory_runs_without_result", 1);
+                continue;
+            }
+            ctx.nontrivial(crate::rng::fnv(format!("relative{spelt}").as_bytes()));
+            if r.stdout.contains("RESULT panic") {
+                ctx.violation("C14/panic", &crate::verdict::one_line(&r.stdout, 300), case);
+                continue;
+            }
+            if !r.stdout.contains("RESULT ok") {
+                ctx.count("relative_directory_builds_rejected", 1);
+                continue;
+            }
+            ctx.count("relative_directory_builds_accepted", 1);
+            let mut got: Vec<String> = crate::drive::read_tree(&scratch.path.join("out")).keys().cloned().collect();
+            got.sort();
+            if got != want {
+                ctx.violation("C14/output-listing/relative-input-directory", &format!("input directory spelt `{spelt}`: expected files {want:?}, written {got:?}"), case);
             }
         }
     }
